@@ -22,6 +22,12 @@ On every run:
      lemmas emitted accordingly; dynamically EVERY rpc method is called on the closed instrument (arguments
      synthesised from the annotations): no call may reach the fake transport, change is_open()/the link or create a
      resource, and the observed outcome (normal / exception) must be one the method's program allows.
+  6. the model's primitives on the real base classes (base_behaviour: exhaustive over flag x hook failing) and on the
+     REAL link-establishment code (link_establishment): the real open()/_open_transport()/close() of QMI_TcpTransport,
+     QMI_UdpTransport, QMI_SerialTransport, QMI_Vxi11Transport, QMI_PyUsbTmcTransport run on recording fakes of the OS
+     primitives with a fault injected at every primitive call in turn; oracle: a failed open() leaves nothing it
+     created open and the transport marked closed, a successful one holds exactly one link, close() (also a failing
+     one) releases everything; every observed call is also a case of LinkOpen/LinkClose for Corr.check_case.
 """
 import importlib
 import inspect
